@@ -326,6 +326,41 @@ def r6_policy(chk, prog):
         chk.check(ok, 'R6', f.name, 'a filter type set twice is resolved by the duplicate policy, never stored twice',
                   f.loc())
     chk.require(n >= 4, 'only %d checkSetFilter instantiations' % n)
+    # the filter the level pre-check consults (mpLevelFilter) is the filter that was just set: the element whose type
+    # was compared equal to the requested type, or the element that was just appended
+    na = 0
+    seen_lines = set()
+    for f in prog.functions:
+        if f.classq != 'celma::log::filter::Filters' or f.short != 'checkSetFilter':
+            continue
+        cfg = f.cfg
+        pushes = [c for c in f.calls() if field_name(object_of(c)) == 'mFilters' and 'push_back' in c.get('callee', '')]
+        same = [bid for bid, cond in cfg.cond_blocks() if cond is not None and mentions_call(cond, 'filterType')
+                and strip_all_casts(cond).get('op') == '==']
+        loops = loops_in(f)
+        loop_vars = {l['c'][1]['decls'][0]['name'] for l in loops if l.get('k') == 'CXXForRangeStmt' and
+                     isinstance(l['c'][1], dict) and l['c'][1].get('decls')}
+        for x in f.walk():
+            if not (x.get('k') == 'BinaryOperator' and x.get('op') == '=' and field_name(children(x)[0]) == 'mpLevelFilter'):
+                continue
+            if (x.get('l'),) in seen_lines:
+                pass
+            na += 1
+            rhs = strip_all_casts(children(x)[1])
+            pos = cfg.position(x)
+            if rhs.get('k') == 'DeclRefExpr' and rhs['ref']['name'] in loop_vars:
+                ok = any(cfg.guarded_by_edge(pos, bid, 0) for bid in same)
+                why = 'the element is not known to have the requested filter type here'
+            elif rhs.get('k') in CALL_KINDS and (rhs.get('callee') or '').endswith('::back') and \
+                    field_name(object_of(rhs)) == 'mFilters':
+                ok = any(cfg.node_dominates(p_, x) for p_ in pushes) and not any(
+                    l in enclosing_loops(f, x) for l in loops)
+                why = 'mFilters.back() is not the filter that was just appended on this path'
+            else:
+                raise AnalysisBroken('assignment to mpLevelFilter in %s has a form this rule does not know' % f.key)
+            chk.check(ok, 'R6', f.name, 'the level filter used by the pre-check is the filter that was just set',
+                      f.loc(x), why)
+    chk.require(na >= 4, 'assignments of mpLevelFilter: %d' % na)
     # "set twice" is judged per filter type: every setter looks for an existing filter under the type tag that the
     # filter class it creates reports itself (IFilter( FilterTypes::X) in its constructor)
 
